@@ -164,6 +164,40 @@ pub fn check_arith(cx: &mut Ctx, z: &ZoneCase, t: i128, op: &Operand) {
                         Ok(g) => cx.violation(&format!("&Zoned {} operator", if negate { "-" } else { "+" }), case, || format!("{}", e), || format!("{:?}", g)),
                         Err(p) => cx.violation(&format!("&Zoned operator/panic@{}", p.loc()), case, || format!("{}", e), || p.what.clone()),
                     }
+                    // every spelling of the operation: by value, and the assigning operators (one impl per operand type each)
+                    let o = guard(|| {
+                        with_op!(op, |x| {
+                            // (Zoned implements the binary operators for &Zoned only; the assigning ones for Zoned)
+                            let by_value = {
+                                let keep = zd.clone();
+                                if negate { &keep - x } else { &keep + x }.timestamp().as_nanosecond()
+                            };
+                            let mut m = zd.clone();
+                            if negate {
+                                m -= x;
+                            } else {
+                                m += x;
+                            }
+                            (by_value, m.timestamp().as_nanosecond())
+                        })
+                    });
+                    let kind = match op {
+                        Operand::Span(_) => "Span",
+                        Operand::SDur(_) => "SignedDuration",
+                        Operand::UDur(_) => "std Duration",
+                    };
+                    match o {
+                        Ok(Some((v, a))) => {
+                            if v != e {
+                                cx.violation(&format!("&Zoned {} {} (clone)", if negate { "-" } else { "+" }, kind), case, || format!("{}", e), || format!("{}", v));
+                            }
+                            if a != e {
+                                cx.violation(&format!("Zoned {}= {}", if negate { "-" } else { "+" }, kind), case, || format!("{}", e), || format!("{}", a));
+                            }
+                        }
+                        Ok(None) => {}
+                        Err(p) => cx.violation(&format!("Zoned assigning operator/panic@{}", p.loc()), case, || format!("{}", e), || p.what.clone()),
+                    }
                 }
             }
         }
@@ -337,6 +371,15 @@ pub fn check_zone(cx: &mut Ctx, z: &ZoneCase, years: &[i64], r: &mut Rng, n: usi
         cx.count("zones_rule_part_skipped_D10", 1);
     }
     let zh = hash64(z.id.as_bytes());
+    // the calendar helpers exactly at, just before and just after transitions (an instant that *is* a transition is the
+    // boundary case of every "walk back to the previous transition")
+    for &c in changes.iter().rev().take(40).chain(changes.iter().take(20)) {
+        for d in [0i128, -1, 1, -(NS), NS] {
+            let t = (c as i128 * NS + d).clamp(MIN_NS, MAX_NS);
+            check_helpers(cx, z, t, r);
+            cx.count("helper_probes_at_transitions", 1);
+        }
+    }
     for k in 0..n {
         let t: i128 = match (changes.is_empty(), k % 8) {
             (false, 0..=4) => {
